@@ -6,8 +6,8 @@ import U3.Gen.Redirect
 # Model of redirect handling: `PoolManager.urlopen`, `ProxyManager.urlopen`, the redirect branch of
 `HTTPConnectionPool.urlopen`, `is_same_host`
 
-Transcribed from `src/urllib3/poolmanager.py` (`PoolManager.urlopen` 409-489, `connection_from_host`
-276-303, `ProxyManager.connection_from_host/_set_proxy_headers/urlopen` 588-633),
+Transcribed from `src/urllib3/poolmanager.py` (`PoolManager.urlopen` 409-495, `connection_from_host`
+276-303, `ProxyManager.connection_from_host/_set_proxy_headers/urlopen` 594-639),
 `src/urllib3/connectionpool.py` (`is_same_host` 570-590, `urlopen` 705-749 and 889-926,
 `_normalize_host` 1145-1160), `src/urllib3/_request_methods.py` (`request`, `request_encode_url`,
 `request_encode_body`), `src/urllib3/response.py` (`get_redirect_location`) and
@@ -161,6 +161,11 @@ def truthyStr : Option Str → Bool
   | none => false
 
 def startsWithSlash (s : Str) : Bool := s.head? == some 47
+/-- `url.startswith("//")` -/
+def startsWithSlashSlash (s : Str) : Bool := s.take 2 == [47, 47]
+/-- `url.startswith("/") and not url.startswith("//")`: a path-only request target (a
+scheme-relative reference `//host/path` names a host and is not one) -/
+def pathOnly (s : Str) : Bool := startsWithSlash s && !startsWithSlashSlash s
 
 /-- `connectionpool._normalize_host(host, scheme)` on ASCII reg-names / IPv4 literals:
 `util.url._normalize_host` lower-cases for the schemes `http`, `https` (`_idna_encode` of an ASCII
@@ -171,7 +176,7 @@ def normalizeHost (host : Str) (scheme : Str) : Str :=
 
 /-- `HTTPConnectionPool.is_same_host(url)`; `pu` is `parse_url(url)` -/
 def isSameHost (p : PoolId) (url : Str) (pu : PUrl) : Bool :=
-  if startsWithSlash url then true
+  if pathOnly url then true
   else
     let scheme := if truthyStr pu.scheme then pu.scheme.getD [] else sHttp        -- `scheme or "http"`
     let host := pu.host.map (fun h => normalizeHost h scheme)
@@ -449,15 +454,17 @@ def mgrSend (W : World) (m : Mgr) (conn : Pool) (u : PUrl) (method url : Str) (k
   (poolUrlopen W conn 1 method (if absolute then url else u.requestUri) kw.body
     (some (kw.headers.getD m.headers)) kw.retries false false).withUrl url
 
-/-- the redirect decision of one pass, given the response and its truthy `Location` (lines 449-489) -/
-def mgrRedirect (W : World) (conn : Pool) (method url : Str) (redirect : Bool) (headers : Hdrs)
+/-- the redirect decision of one pass, given the response and its truthy `Location` (lines 449-495);
+`m` is consulted for `self.connection_pool_kw.get("retries")` only -/
+def mgrRedirect (W : World) (m : Mgr) (conn : Pool) (method url : Str) (redirect : Bool) (headers : Hdrs)
     (kw : Kw) (first : Run) (reply : Reply) (loc : Str) : MgrStep :=
   match W.join url loc with                                  -- `urljoin(url, redirect_location)`
   | none => .done ⟨first.log, .oracleMissing⟩
   | some loc' =>
     let rw := rewrite303 reply.status method kw.body headers         -- (method, body, headers)
-    -- `retries = kw.get("retries"); if not isinstance(retries, Retry): from_int(retries, redirect=redirect)`
-    let retries := deriveRetry kw.retries redirect .none
+    -- `retries = kw.get("retries"); if not isinstance(retries, Retry): from_int(retries, redirect=redirect,
+    --  default=self.connection_pool_kw.get("retries"))`
+    let retries := deriveRetry kw.retries redirect m.retries
     -- `if retries.remove_headers_on_redirect and not conn.is_same_host(redirect_location)`
     let same : Option Bool :=
       if retries.removeHeadersOnRedirect.isEmpty then some true
@@ -489,7 +496,7 @@ def mgrStep (W : World) (m : Mgr) (method url : Str) (redirect : Bool) (kw : Kw)
         -- `redirect_location = redirect and response.get_redirect_location()`
         match (if redirect then reply.redirectLocation else none) with
         | none => .done first
-        | some loc => mgrRedirect W conn method url redirect (kw.headers.getD m.headers) kw first reply loc
+        | some loc => mgrRedirect W m conn method url redirect (kw.headers.getD m.headers) kw first reply loc
       | _ => .done first                                        -- the pool call raised
 
 /-- `PoolManager.urlopen` with its recursive calls -/
@@ -546,11 +553,11 @@ def run (W : World) (c : Client) (fuel : Nat) (req : Req) : Run :=
 /-! ## the policy in effect -/
 
 /-- the `Retry` the code consults for the first redirect decision of a call: the pool falls back to
-its own default, `PoolManager.urlopen` only looks at the per-request keyword -/
+its own default, `PoolManager.urlopen` to the `retries` of its `connection_pool_kw` -/
 def effective (c : Client) (req : Req) : Retry :=
   let redirect := req.redirect.getD true
   match c with
-  | .manager _ => deriveRetry req.retries redirect .none
+  | .manager m => deriveRetry req.retries redirect m.retries
   | .pool p => deriveRetry req.retries redirect p.retries
 
 /-- the policy the caller *supplied*: per request if given, else the one of the pool / manager
